@@ -1,13 +1,13 @@
 SPECIFICATION Spec
 CONSTANTS
-  Threshold = 1
+  Threshold = 255
   MaxRedirect = 65535
   MaxHeader = 255
   Deviations = {}
   Bug = ""
   Mode = "lk"
   NC = 2
-  MaxBody = 3
+  MaxBody = 2
   MaxPrefix = 2
   SkipBytes = {0, 128}
   Variants = {0}
@@ -15,7 +15,8 @@ CONSTANTS
   MaxW = 2
   MaxH = 1
   DomT = 1
-  PadK = 0
+  PadK = 254
   Waive = {}
-INVARIANTS Idempotent SameFont SameChains Fits Closed MainLoopSame PlWellFormed
+CONSTRAINT FirstTripOnly
+INVARIANTS EmitCase
 CHECK_DEADLOCK FALSE
